@@ -266,6 +266,29 @@ def oracle_hist(p):
     after = np.array(o.psd)
     if o.sides != sides_before or after.shape != before.shape or rel(after, before) > 1e-12:
         out.append("re-assigning unchanged values altered the result (%s)" % tag)
+    if not out and (len(p["ops"]) + p["data0"]) % 2 == 0:
+        # arithmetic through the data property (`p.data *= 3`, `p.data -= p.data.mean()`): the setter receives the SAME array
+        # object with new contents - still an assignment of new data
+        d = np.array(DATA[a["dataId"]], copy=True)
+        o.data = d
+        _ = o.psd
+        if len(p["ops"]) % 4 < 2:
+            o.data *= 3.0
+        else:
+            o.data += np.arange(len(d)) * 0.25
+        got3 = np.array(o.psd)
+        DATA[99] = np.array(o.data, copy=True)
+        try:
+            f3 = build(cls, dict(a, dataId=99))
+            exp3 = np.array(f3.psd)
+            if f3.sides != o.sides:
+                f3.sides = o.sides
+                exp3 = np.array(f3.psd)
+        finally:
+            del DATA[99]
+        if got3.shape != exp3.shape or rel(got3, exp3) > 1e-9:
+            out.append("psd is stale after in-place arithmetic through the data property (p.data *= c / p.data += r): differs from a "
+                       "fresh object on the final data (%s)" % tag)
     return out
 
 
